@@ -223,7 +223,13 @@ def tlc(specdir, module, cfg, workers=None, timeout=900, simulate=None, depth=No
     else:
         if "Error:" in o or r.rc != 0:
             # evaluation errors, parse errors, OOM...: not a verdict
-            first = [l for l in o.splitlines() if l.startswith("Error:") or "Exception" in l or "was not" in l or "Attempted" in l][:6]
+            ls_ = o.splitlines()
+            first = []
+            for n_, l in enumerate(ls_):
+                if l.startswith("Error:") or "Exception" in l:
+                    first += ls_[n_:n_ + 8]
+                    if len(first) > 30:
+                        break
             raise Inconclusive("TLC failed (rc=%s): %s\n%s\n...\n%s" % (r.rc, res.cmd, "\n".join(first), o[-2000:]))
     if dump_trace and os.path.exists(os.path.join(d, "cex.json")):
         try:
